@@ -1426,6 +1426,8 @@ def check_canon(fam, data, canon, flags):
         return check_f6(fam, data, canon, flags)
     if name == "F8":
         return check_f8(fam, data, canon, flags)
+    if name == "F9":
+        return check_f9(fam, data, canon, flags)
     return []
 
 
@@ -1517,6 +1519,24 @@ def family_tasks(prop, tier, root):
             argv = workload.sample_argv(ro, need=spec["need"], force=f)
             unit = {"label": "F8:%d" % idx, "source": spec["source"], "argv": argv, "must_inputs": [x.hex() for x in xs],
                     "family": {k: v for k, v in spec.items() if k != "source"}, "canaries": {"zc0": 90, "zc1": 90}}
+            tasks.append(("sim", root, idx, unit, plan))
+    # F9: string constants and computed bytes (assignments, defaults, char-appends) against a dict-of-bytes model
+    if prop in ("C03", "C02"):
+        for j in range(n // 3 if prop == "C03" else n // 6):
+            idx = 590000 + j
+            rng = sched.rng_for(root, "family-F9", idx)
+            spec = gen_f9(rng)
+            xs = f9_inputs(rng, spec, 6)
+            ro = sched.rng_for(root, "family-options", idx)
+            f = {"storage": idx % 4}
+            f["O"] = ro.choice((3, 2, 1, 0))
+            argv = workload.sample_argv(ro, need=spec["need"], force=f)
+            fam = {k: v for k, v in spec.items() if k != "source"}
+            for s9 in fam["strs"]:
+                if isinstance(s9["default"], bytes):
+                    s9["default"] = s9["default"].hex()
+            unit = {"label": "F9:%d" % idx, "source": spec["source"], "argv": argv, "must_inputs": [x.hex() for x in xs],
+                    "family": fam, "canaries": {"zc0": 90, "zc1": 90}}
             tasks.append(("sim", root, idx, unit, plan))
     return tasks
 
@@ -1894,4 +1914,201 @@ def f8_inputs(rng, spec, count):
             i = rng.randrange(len(x))
             x = x[:i] + bytes([rng.choice(LET + PUN + DIG)]) + x[i + 1:]
         res.append(x[:96])
+    return res
+
+
+# =====================================================================================
+# F9 "const": string constants and computed bytes - assignments and defaults with escapes, NUL bytes, control bytes
+# followed by hex-digit characters, the same constant copied into terminated and unterminated strings, constants
+# that exactly fill / do not fit a capacity, char-appends of computed values.  Model: a dict of byte strings.
+# Bytes >= 0x80 written as "\xNN" in text constants are kept out of the *model* (what they denote - one byte or a
+# UTF-8 sequence - is a question of literal spelling, C15, not decided here); binary defaults ("..."b) carry them.
+# =====================================================================================
+
+def _f9_text_const(r, n):
+    """(source spelling, bytes) of a text constant of n bytes drawn from spellings whose meaning is unambiguous"""
+    src, bs = "", bytearray()
+    while len(bs) < n:
+        k = r.randrange(10)
+        if k < 4:
+            b = r.choice(LET + DIG)
+            src += chr(b)
+        elif k == 4:
+            b = r.choice((65, 70, 97, 102, 48, 57))       # hex-digit characters, often right behind an escape
+            src += chr(b)
+        elif k == 5:
+            e, b = r.choice((("\\n", 10), ("\\t", 9), ("\\r", 13), ("\\b", 8), ("\\0", 0)))
+            src += e
+        elif k == 6:
+            b = r.choice((1, 7, 0x1f, 0x7f, 0x0a, 0x00, 0x10))
+            src += "\\x%02x" % b
+        elif k == 7:
+            e, b = r.choice((('\\"', 34), ("\\\\", 92)))
+            src += e
+        elif k == 8:
+            b = r.choice((32, 37, 63, 39, 123))           # blank % ? ' {
+            src += chr(b)
+        else:
+            b = r.choice(PUN)
+            src += chr(b)
+        bs.append(b)
+    return '"' + src + '"', bytes(bs)
+
+
+def _f9_bin_const(r, n):
+    bs = bytes(r.choice((0, 255, 128, 10, 65, 0x7f, r.randrange(256))) for _ in range(n))
+    return '"' + " ".join("%02x" % b for b in bs) + '"b', bs
+
+
+def gen_f9(rng):
+    r = rng
+    strs = []
+    for i in range(2):
+        size = r.choice((2, 3, 4, 5, 6, 8))
+        unterm = (r.random() < 0.5) if i == 0 else (not strs[0]["unterm"] if r.random() < 0.7 else r.random() < 0.5)
+        cap = size if unterm else size - 1
+        strs.append({"name": "s%d" % i, "size": size, "unterm": unterm, "cap": cap, "default": None})
+    mincap = min(s["cap"] for s in strs)
+    maxcap = max(s["cap"] for s in strs)
+    # constants: lengths at the capacity edges of both strings
+    consts = []
+    for n in {0, 1, mincap, maxcap, r.randrange(0, maxcap + 1)}:
+        consts.append(_f9_text_const(r, n))
+    toolong = r.random() < 0.12
+    L = []
+    for s in strs:
+        d = "out %sstr[%d] %s" % ("unterminated " if s["unterm"] else "", s["size"], s["name"])
+        k = r.random()
+        if k < 0.3:
+            n = r.choice((0, 1, s["cap"], s["cap"], r.randrange(0, s["cap"] + 1)))
+            if toolong and s is strs[0]:
+                n = s["cap"] + r.choice((1, 1, 2, 4))
+            src, bs = _f9_text_const(r, n)
+            s["default"] = bs
+            d += " = " + src
+        elif k < 0.55:
+            n = r.choice((1, s["cap"], r.randrange(0, s["cap"] + 1)))
+            if toolong and s is strs[0]:
+                n = s["cap"] + r.choice((1, 2))
+            src, bs = _f9_bin_const(r, n)
+            s["default"] = bs
+            d += " = " + src
+        L.append(d + ";")
+        L.append("out int{size 1} zc%s = 90;" % s["name"][1:])
+    L += ["hook h0;", "hook hfull;", "finishcode TOO;", "", "parser {", "    loop {", "        try {", "            case {"]
+    cmds = {}
+    keys = list("abcdefghijklm")
+    r.shuffle(keys)
+    ki = 0
+    # the same constant into both strings (where it fits), other constants into one of them
+    for ci, (src, bs) in enumerate(consts):
+        targets = [s for s in strs if len(bs) <= s["cap"]]
+        if ci > 0 and len(targets) > 1 and r.random() < 0.4:
+            targets = [r.choice(targets)]
+        for s in targets:
+            key = keys[ki]
+            ki += 1
+            cmds[key] = ("assign", s["name"], bs)
+            L.append('                "%s" -> { %s = %s; h0(); }' % (key, s["name"], src))
+    for s in strs:
+        key = keys[ki]
+        ki += 1
+        v = r.choice((0, 65, 255, 128, 10, 127))
+        cmds[key] = ("appc", s["name"], v)
+        L.append('                "%s" -> { %s += [%d]; h0(); }' % (key, s["name"], v))
+    key = keys[ki]
+    ki += 1
+    tgt = r.choice(strs)["name"]
+    cmds[key] = ("applast", tgt, None)
+    L.append('                "%s" -> { /./; %s += [$last]; h0(); }' % (key, tgt))
+    key = keys[ki]
+    ki += 1
+    tgt = r.choice(strs)["name"]
+    cmds[key] = ("delete", tgt, None)
+    L.append('                "%s" -> { delete %s; h0(); }' % (key, tgt))
+    L += ["            }", "        }", "        catch (outofspace) {", "            hfull();", "            finish TOO;", "        }", "    }", "}"]
+    spec = {"family": "F9", "strs": strs, "cmds": {k: [v[0], v[1], (v[2].hex() if isinstance(v[2], bytes) else v[2])] for k, v in cmds.items()},
+            "toolong": any(s["default"] is not None and len(s["default"]) > s["cap"] for s in strs), "source": "\n".join(L) + "\n", "need": [],
+            "outputs": [{"name": "zc0", "type": "INT", "canary": True}, {"name": "zc1", "type": "INT", "canary": True}]}
+    return spec
+
+
+def _f9_snap(spec, st):
+    return ";".join("%s=%d:%s;zc%s=90" % (s["name"], len(st[s["name"]]), bytes(st[s["name"]]).hex(), s["name"][1:]) for s in spec["strs"])
+
+
+def check_f9(spec, data, canon, flags):
+    if spec.get("toolong"):
+        # a default that does not fit must be refused at compile time; an accepted program is judged by the memory laws
+        # (counter beyond capacity right after start) - no model trace
+        return [oracles.V("F9", "oversized-default-accepted", -1, 0,
+                          "the default of %s is longer than its capacity %d, yet the program was accepted" % (spec["strs"][0]["name"], spec["strs"][0]["cap"]))]
+    caps = {s["name"]: s["cap"] for s in spec["strs"]}
+    st = {}
+    for s in spec["strs"]:
+        d = s["default"]
+        st[s["name"]] = bytearray(bytes.fromhex(d) if isinstance(d, str) else (d or b""))
+    ev = []
+    terminal = None
+    pos = 0
+    after = {}
+    n = len(data)
+    while pos < n:
+        c = chr(data[pos])
+        cmd = spec["cmds"].get(c)
+        if cmd is None:
+            terminal = ("FAIL", pos)
+            break
+        kind, name, arg = cmd
+        used = 1
+        full = False
+        if kind == "assign":
+            st[name] = bytearray(bytes.fromhex(arg))
+        elif kind == "delete":
+            st[name] = bytearray()
+        elif kind == "appc":
+            if len(st[name]) >= caps[name]:
+                full = True
+            else:
+                st[name].append(arg & 0xFF)
+        elif kind == "applast":
+            if pos + 1 >= n:
+                break               # the wildcard is still waiting for its byte
+            used = 2
+            if len(st[name]) >= caps[name]:
+                full = True
+            else:
+                st[name].append(data[pos + 1])
+        pos += used
+        if full:
+            ev.append({"kind": "hook", "name": "hfull", "k": pos, "snap": _f9_snap(spec, st), "opt": False, "taint": False})
+            terminal = ("FINISH_TOO", pos)
+            break
+        ev.append({"kind": "hook", "name": "h0", "k": pos, "snap": _f9_snap(spec, st), "opt": False, "taint": False})
+    out, obs = compare_model_trace(ev, terminal, False, canon, data, flags, "F9")
+    return out
+
+
+def f9_inputs(rng, spec, count):
+    keys = sorted(spec["cmds"])
+    res = []
+    assigns = [k for k in keys if spec["cmds"][k][0] == "assign"]
+    appc = [k for k in keys if spec["cmds"][k][0] == "appc"]
+    # every command once after every assignment (the constant that was there before matters: a shorter one after a longer one)
+    for _ in range(count):
+        x = bytearray()
+        for _ in range(rng.randrange(3, 14)):
+            k = rng.choice(keys)
+            x += k.encode()
+            if spec["cmds"][k][0] == "applast":
+                x.append(rng.choice((0, 255, 65, 10, 128)))
+        res.append(bytes(x))
+    # longest then shortest constant into each string; fill by char-appends up to and beyond the capacity
+    byl = sorted(assigns, key=lambda k: len(spec["cmds"][k][2]))
+    if byl:
+        res.append((byl[-1] + byl[0] + byl[-1]).encode() + "".join(assigns).encode())
+    for k in appc:
+        res.append((k * 10).encode())
+        if byl:
+            res.append((byl[-1] + k * 9).encode())
     return res
